@@ -322,24 +322,58 @@ def cmd_run(args):
 
 
 def cmd_report(args):
+    """REPORT.md: first pass (harness as it stood when the sweep started) and the re-run of its survivors with
+    the current harness; survivors pruned from the re-run as known-equivalent / out of scope are listed with the reason."""
     rp = os.path.join(OUT, "results.jsonl")
-    rs = [json.loads(l) for l in open(rp)]
-    by = {}
-    for r in rs:
-        by.setdefault(r["status"], []).append(r)
+    rs = {}
+    for l in open(rp):
+        r = json.loads(l)
+        rs[r["id"]] = r
+    first = json.load(open(os.path.join(OUT, "first_pass_status.json"))) if os.path.exists(os.path.join(OUT, "first_pass_status.json")) else {}
+    pruned = json.load(open(os.path.join(OUT, "pruned_equivalent.json"))) if os.path.exists(os.path.join(OUT, "pruned_equivalent.json")) else {}
+    allm = {}
+    qp = os.path.join(OUT, "all_mutants.jsonl")
+    if os.path.exists(qp):
+        for l in open(qp):
+            m = json.loads(l)
+            allm[m["id"]] = m
+    ids = set(first) | set(rs)
+    def fstat(i):
+        return first.get(i) or rs[i]["status"]
+    def nstat(i):
+        if i in rs:
+            return rs[i]["status"]
+        return "survived (not re-run: " + pruned.get(i, "pending") + ")"
+    cand = [i for i in ids if fstat(i) in ("caught", "survived", "inconclusive")]
+    from collections import Counter
+    c1 = Counter(fstat(i) for i in ids)
     lines = ["# Mutation sweep (tools/mutsweep.py)", "",
-             f"{len(rs)} mechanical mutants executed: " + ", ".join(f"{k} {len(v)}" for k, v in sorted(by.items())), ""]
-    cand = by.get("caught", []) + by.get("survived", []) + by.get("inconclusive", [])
-    lines.append(f"Candidates (compile and pass the repository's tests): {len(cand)}; caught by a quick check: {len(by.get('caught', []))}")
-    lines += ["", "| file | candidates | caught | survived | inconclusive |", "|---|---|---|---|---|"]
-    for f in sorted({r["file"] for r in cand}):
-        c = [r for r in cand if r["file"] == f]
-        lines.append(f"| {f} | {len(c)} | {sum(r['status'] == 'caught' for r in c)} | {sum(r['status'] == 'survived' for r in c)} | {sum(r['status'] == 'inconclusive' for r in c)} |")
-    lines += ["", "## Survivors and inconclusive", "", "| id | where | operator | line | status |", "|---|---|---|---|---|"]
-    for r in sorted(by.get("survived", []) + by.get("inconclusive", []), key=lambda r: (r["file"], r["line"])):
-        lines.append(f"| {r['id']} | {r['file']}:{r['line']} | {r['op']} | `{r['old'].strip()[:90]}` | {r['status']} |")
+             f"{len(ids)} mechanical single-edit mutants of /repo/src. First pass (harness as it stood when the sweep started): "
+             + ", ".join(f"{k} {v}" for k, v in sorted(c1.items())) + ".",
+             f"Candidates (compile and pass the repository's own tests): {len(cand)}; caught by a quick check in the first pass: {c1.get('caught', 0)}.", ""]
+    now_caught = [i for i in cand if i in rs and rs[i]["status"] == "caught"]
+    still = [i for i in cand if not (i in rs and rs[i]["status"] == "caught")]
+    lines.append(f"After the additions the survivors led to (DESIGN.md §11.8) and a re-run of the survivors with the current harness: {len(now_caught)} of {len(cand)} candidates caught; "
+                 f"{len(still)} remain, each triaged below (equivalent mutant, or behaviour no listed property speaks about).")
+    lines += ["", "| file | candidates | caught (first pass) | caught (now) | remaining |", "|---|---|---|---|---|"]
+    def fileof(i):
+        return (rs.get(i) or allm.get(i) or {}).get("file", "?")
+    for f in sorted({fileof(i) for i in cand}):
+        c = [i for i in cand if fileof(i) == f]
+        lines.append(f"| {f} | {len(c)} | {sum(fstat(i) == 'caught' for i in c)} | {sum(i in now_caught for i in c)} | {sum(i in still for i in c)} |")
+    lines += ["", "## Survivors of the first pass that the current harness catches", "", "| where | operator | line | caught by |", "|---|---|---|---|"]
+    for i in sorted(now_caught, key=lambda i: (rs[i]["file"], rs[i]["line"])):
+        if fstat(i) != "caught":
+            r = rs[i]
+            lines.append(f"| {r['file']}:{r['line']} | {r['op']} | `{r['old'].strip().splitlines()[0][:80]}` | {r.get('caught_by', '')} |")
+    lines += ["", "## Remaining survivors", "", "| where | operator | line | status | triage |", "|---|---|---|---|---|"]
+    tri = json.load(open(os.path.join(OUT, "triage.json"))) if os.path.exists(os.path.join(OUT, "triage.json")) else {}
+    for i in sorted(still, key=lambda i: (fileof(i), (rs.get(i) or allm.get(i) or {}).get("line", 0))):
+        r = rs.get(i) or allm.get(i) or {"file": "?", "line": 0, "op": "?", "old": ""}
+        why = tri.get(i) or pruned.get(i) or ""
+        lines.append(f"| {r['file']}:{r['line']} | {r['op']} | `{r['old'].strip().splitlines()[0][:80] if r['old'].strip() else ''}` | {nstat(i)[:40]} | {why} |")
     open(os.path.join(OUT, "REPORT.md"), "w").write("\n".join(lines) + "\n")
-    print("\n".join(lines[:12]))
+    print("\n".join(lines[:8]))
 
 
 if __name__ == "__main__":
